@@ -284,7 +284,15 @@ func (g *BatchGroupBy) encodeKey(dst []byte, b *vectorized.RecordBatch, rowIdx i
 //
 // This helper is shared by BatchGroupBy.encodeKey and BatchAggregation.computeKey
 // so the two operators agree on key equivalence (Copilot G3 review issues 1+2).
+//
+// Every component starts with a presence byte: a null is not a value, so a
+// null int64 (stored as 0) or a null string (stored as "") must not land in
+// the group of 0 or "".
 func appendKeyComponent(dst []byte, col vectorized.Column, rowIdx int) []byte {
+	if col.IsNull(rowIdx) {
+		return append(dst, 0)
+	}
+	dst = append(dst, 1)
 	switch c := col.(type) {
 	case *vectorized.TypedColumn[int64]:
 		return appendIntKey(dst, c.Data()[rowIdx])
